@@ -108,6 +108,8 @@ def main():
         if is_out:
             if at("OpenOut"):
                 strike()
+            if fault is not None and fault.get("os"):
+                return real_open(file, mode, *a, **kw)
             return FaultyFile(real_open(file, mode, *a, **kw))
         return real_open(file, mode, *a, **kw)
     io.open = faulty_open
@@ -134,6 +136,22 @@ def main():
         if spec["entry"] == "driver":
             sys.stdout = FaultyStdout(sys.stdout)
 
+    if fault is not None and fault.get("os"):
+        # a REAL fault of the operating system instead of a raised exception: once the result is serialised (the
+        # merge itself writes temporary files for git merge-file) no file may grow beyond a few bytes (the disk is
+        # full / a quota is reached); the kernel writes what still fits and reports a short count or EFBIG -
+        # whichever way the program writes its result (standard output is a pipe, not affected)
+        serialise = nbformat.writes
+
+        def writes_then_limit(*a, **kw):
+            res = serialise(*a, **kw)
+            import resource
+            signal.signal(signal.SIGXFSZ, signal.SIG_IGN)
+            resource.setrlimit(resource.RLIMIT_FSIZE, (40, 40))
+            sys.stderr.write("FAULT-FIRED\n")
+            sys.stderr.flush()
+            return res
+        nbformat.writes = writes_then_limit
     if spec["entry"] == "nbmerge":
         rc = app.main(spec["argv"])
     else:
